@@ -258,6 +258,7 @@ def compare_lines(impl, model, mode, rtol=1e-9, atol_rel=1e-12, scale0=0.0):
         return False
     fl = []
     prev = ""
+    overflowed = False
     for a, b in zip(ti, tm):
         fa, fb = is_float_tok(a), is_float_tok(b)
         if fa != fb:
@@ -265,6 +266,18 @@ def compare_lines(impl, model, mode, rtol=1e-9, atol_rel=1e-12, scale0=0.0):
         if not fa:
             if a != b:
                 return False
+            if a in ("F", "D", "D2", ";"):
+                overflowed = False
+        elif overflowed:
+            # derivative entries of a number whose VALUE is the same infinity or NaN on both sides: the value has
+            # left the reals, no property speaks about its derivatives (inf vs NaN there is an artefact of the
+            # operation order)
+            pass
+        elif prev in ("D", "D2") and not math.isfinite(f_of_hex(a)) and not math.isfinite(f_of_hex(b)):
+            va, vb = f_of_hex(a), f_of_hex(b)
+            if not ((math.isnan(va) and math.isnan(vb)) or va == vb):
+                return False
+            overflowed = True
         elif mode == "vexact" and prev in ("F", "D", "D2", "B", "X", ""):
             # a VALUE (the float right after a number marker, or a bare float): bit for bit (NaN = NaN, +0 = -0)
             va, vb = f_of_hex(a), f_of_hex(b)
